@@ -210,6 +210,9 @@ type Spec struct {
 	// FositeSession: sessions created through World.Sess are fosite's own openid.DefaultSession instead of the
 	// harness type (only without JWT access tokens, which need a JWTSessionContainer).
 	FositeSession bool
+	// LegacyRevocationHandler puts a second revocation handler, over an empty store of its own, in front of the real
+	// one (an operator migrating between stores): it knows none of the tokens and answers accordingly.
+	LegacyRevocationHandler bool
 	// Minimal: a default-constructed Config (only the global secret is set), as in fosite's README quick start.
 	Minimal bool
 }
@@ -362,6 +365,10 @@ func NewWorld(sp Spec) *World {
 		compose.OAuth2PKCEFactory,
 		compose.PushedAuthorizeHandlerFactory,
 	)
+	if sp.LegacyRevocationHandler {
+		legacy := &oauth2.TokenRevocationHandler{TokenRevocationStorage: storage.NewMemoryStore(), RefreshTokenStrategy: w.Core, AccessTokenStrategy: w.Core}
+		cfg.RevocationHandlers = append(fosite.RevocationHandlers{legacy}, cfg.RevocationHandlers...)
+	}
 	return w
 }
 
